@@ -3,9 +3,12 @@
             kind 0: window(w, s) with k capturing consumers      1: countByWindow(w, s) with k consumers
                  2: updateStateByKey(u) with k consumers         3: window and updateStateByKey on one source, k each
                  4: countByWindow and (registered after it) updateStateByKey on one source, k consumers each
-            ucode 0 sum, 1 last, 2 count, 3 append, 4 history, 5 idle, 6 decay, 7 reset, 8 min-or-None; batches: the queue contents; times: the clock value of every tick
+                 5 / 6: window / countByWindow over a DERIVED stream (variant pv, see Model.derived_parent) with k
+                        consumers, plus one consumer (k) on the parent; an optional 8th component carries pv
+            a batch is VList data (a plain list) or VTup [VInt form; VInt n; VList data] (an RDD, see as_batches)
+            ucode 0 sum, 1 last, 2 count, 3 append, 4 history, 5 idle, 6 decay, 7 reset, 8 min-or-None, 9 first, 10 concat; batches: the queue contents; times: the clock value of every tick
    result = VTup [VList node_kinds; VList ticks]
-            node_kinds: the classes of ssc._dstreams in registration order (0 DStream, 1 Transformed, 2 Windowed, 3 Stateful)
+            node_kinds: the classes of ssc._dstreams in registration order (0 DStream, 1 Transformed, 2 Windowed, 3 Stateful, 4 TransformedWith)
             ticks: per tick VTup [VList [VTup [VInt consumer; captured]]; error], captured = VNone | VList elements
                    (captures of a stateful stream sorted by key), error = VNone | VStr exception class name *)
 From Coq Require Import ZArith NArith Bool String Ascii List.
@@ -17,7 +20,7 @@ Definition ufun_of_code (c : Z) : option (list val -> val -> val) :=
   match c with
   | 0 => Some u_sum | 1 => Some u_last | 2 => Some u_count | 3 => Some u_append
   | 4 => Some u_history | 5 => Some u_idle | 6 => Some u_decay
-  | 7 => Some u_reset | 8 => Some u_minopt
+  | 7 => Some u_reset | 8 => Some u_minopt | 9 => Some u_first | 10 => Some u_concat
   | _ => None
   end.
 
@@ -25,6 +28,18 @@ Fixpoint as_batches (l : list val) : option (list (list val)) :=
   match l with
   | [] => Some []
   | VList b :: l' => match as_batches l' with Some r => Some (b :: r) | None => None end
+  (* a queue entry that is an RDD: form 0 sc.parallelize(data, n), 1 sc.parallelize(data, n).map(INC),
+     2 sc.parallelize(data, n).filter(EVEN); the number of partitions n is not observable (see Model/Window.v) *)
+  | VTup [VInt form; VInt _; VList b] :: l' =>
+      match as_batches l' with
+      | Some r => match form with
+                  | 0 => Some (b :: r)
+                  | 1 => Some (map v_inc b :: r)
+                  | 2 => Some (filter v_even b :: r)
+                  | _ => None
+                  end
+      | None => None
+      end
   | _ => None
   end.
 
@@ -36,7 +51,9 @@ Fixpoint ins_kv (p : Z * val) (l : list (Z * val)) : list (Z * val) :=
 Definition sort_kv (l : list (Z * val)) : list (Z * val) := fold_right ins_kv [] l.
 
 Definition kind_code (nd : node) : val :=
-  match nd with Src _ => VInt 0 | Trans _ _ => VInt 1 | Window _ _ _ => VInt 2 | Stateful _ _ => VInt 3 end.
+  match nd with
+  | Src _ => VInt 0 | Trans _ _ => VInt 1 | Window _ _ _ => VInt 2 | Stateful _ _ => VInt 3 | Union _ _ => VInt 4
+  end.
 
 Definition str_of_string (s : string) : list N := map (fun a => N_of_ascii a) (list_ascii_of_string s).
 
@@ -58,8 +75,10 @@ Definition enc_tick (kind k : Z) (log : list logentry) (te : Z * option string) 
                    (filter (fun en => let '(t', _, _) := en in t' =? t) log));
         match e with None => VNone | Some s => VStr (str_of_string s) end].
 
-Definition graph_of (kind w s : Z) (u : list val -> val -> val) (k : nat) (q : list (list val)) : option (list node) :=
+Definition graph_of (kind w s pv : Z) (u : list val -> val -> val) (k : nat) (q : list (list val)) : option (list node) :=
   match kind with
+  | 5 => match derived_parent pv u q with Some pre => Some (prog_window_over false pre w s k) | None => None end
+  | 6 => match derived_parent pv u q with Some pre => Some (prog_window_over true pre w s k) | None => None end
   | 0 => Some (prog_window q w s k)
   | 1 => Some (prog_count q w s k)
   | 2 => Some (prog_state q u k)
@@ -78,17 +97,20 @@ Fixpoint run_enc (kind k : Z) (g : list node) (ts : list Z) (st : gstate) : list
       enc_tick kind k (glog st1) (t, e) :: run_enc kind k g ts' st1
   end.
 
+Definition run_with (kind w s uc k : Z) (bs ts : list val) (pv : Z) : val :=
+  match ufun_of_code uc, as_batches bs, all_Z ts with
+  | Some u, Some q, Some times =>
+      if k <? 0 then VBad else
+      match graph_of kind w s pv u (Z.to_nat k) q with
+      | Some g => VTup [VList (map kind_code g); VList (run_enc kind k g times (init_state g))]
+      | None => VBad
+      end
+  | _, _, _ => VBad
+  end.
+
 Definition run (c : val) : val :=
   match c with
-  | VTup [VInt kind; VInt w; VInt s; VInt uc; VInt k; VList bs; VList ts] =>
-      match ufun_of_code uc, as_batches bs, all_Z ts with
-      | Some u, Some q, Some times =>
-          if k <? 0 then VBad else
-          match graph_of kind w s u (Z.to_nat k) q with
-          | Some g => VTup [VList (map kind_code g); VList (run_enc kind k g times (init_state g))]
-          | None => VBad
-          end
-      | _, _, _ => VBad
-      end
+  | VTup [VInt kind; VInt w; VInt s; VInt uc; VInt k; VList bs; VList ts] => run_with kind w s uc k bs ts 0
+  | VTup [VInt kind; VInt w; VInt s; VInt uc; VInt k; VList bs; VList ts; VInt pv] => run_with kind w s uc k bs ts pv
   | _ => VBad
   end.
